@@ -76,7 +76,7 @@ NegOf(a, delta) ==   \* the exact negation of amount a plus delta units of its l
     [neg |-> v < 0, m |-> Abs(v), sc |-> a.sc, n |-> IF a.sc = 3 THEN "exp" ELSE "point", comm |-> a.comm,
      side |-> IF a.comm = 0 THEN "R" ELSE "R", sp |-> a.comm # 0, sgn |-> "before", plus |-> FALSE]
 
-BalAmounts(u) == { a \in AllAmounts(0) : a.sc <= S /\ (Family = "bal-threedec" => a.sc = 3) /\ (a.comm # 0 => Commodities[a.comm].k # "lower") }
+BalAmounts(u) == { a \in AllAmounts(0) : a.sc <= S /\ (Family = "bal-threedec" => a.sc = 3) /\ (a.comm # 0 => CommoditiesX[a.comm].k # "lower") }
 
 NotationKeys(u) == (0..Len(Commodities)) \X {0, 1}
 FamNotationPart(key) ==
@@ -137,7 +137,7 @@ CloseTx(o) ==
          [] o.close = "infer2" -> [t0 EXCEPT !.posts = <<inferred>> \o @ \o <<[inferred EXCEPT !.acct = 5]>>]
          [] o.close \in {"exact", "off"} /\ Cardinality(comms) = 1 ->
                LET rc  == CHOOSE c \in comms : TRUE
-                   idx == CHOOSE k \in 0..Len(Commodities) : (IF k = 0 THEN "" ELSE Commodities[k].sym) = rc
+                   idx == CHOOSE k \in 0..Len(Commodities) : (IF k = 0 THEN "" ELSE CommoditiesX[k].sym) = rc
                    v   == (0 - SumFor(cs, rc, 1)) + (IF o.close = "off" THEN o.delta ELSE 0)
                    nn  == IF NotationOK(Abs(v), S, o.nota) THEN o.nota ELSE "point"
                IN [t0 EXCEPT !.posts = @ \o << [inferred EXCEPT !.amt = << [neg |-> v < 0, m |-> Abs(v), sc |-> S, n |-> nn, comm |-> idx,
